@@ -213,10 +213,12 @@ class SparselyBin(Factory, Container):
                 )
             self._checkContent(other)
 
+            # the value template says what the bins look like even when there is no bin: keep it whichever side has it
+            value = self.value if self.value is not None else other.value
             out = SparselyBin(
                 self.binWidth,
                 self.quantity,
-                self.value.copy() if self.value is not None else None,
+                value.copy() if value is not None else None,
                 self.nanflow + other.nanflow,
                 self.origin,
             )
